@@ -1,19 +1,20 @@
 (* C12 — correspondence / property evaluation on histories observed on the
    implementation.  Executable only. *)
 From Coq Require Import List ZArith Bool.
-From GZ Require Export Lib.CheckLib C12.Model.
+From GZ Require Export Lib.CheckLib C12.Model C12.Concrete.
 Import ListNotations.
 Open Scope Z_scope.
 
 Record case := mkCase
-  { cn : Z; cint : Z; cops : list op;
+  { kn : Z; kint : Z; cops : list op;
     cobs : list fired  (* per operation: callbacks observed on the implementation *) }.
 
 Definition canon (fs : list fired) : list fired := map sort_pairs fs.
 
 (* the model reproduces exactly what the implementation did *)
 Definition agrees (c : case) : bool :=
-  list_eqb pairs_eqb (canon (run (init (cn c) (cint c)) (cops c))) (canon (cobs c)).
+  list_eqb pairs_eqb (canon (run (init (kn c) (kint c)) (cops c))) (canon (cobs c))
+  && list_eqb pairs_eqb (canon (crun (cinit (kn c) (kint c)) (cops c))) (canon (cobs c)).
 
 (* the property's quantifier: delays of at least one interval *)
 Definition op_in_scope (i : Z) (o : op) : bool :=
@@ -25,8 +26,8 @@ Definition op_in_scope (i : Z) (o : op) : bool :=
 (* the property, on the implementation's own observations: they are the firings
    of the "key |-> remaining ticks" specification *)
 Definition prop_ok (c : case) : bool :=
-  if forallb (op_in_scope (cint c)) (cops c) then
-    list_eqb pairs_eqb (canon (sp_run (cint c) [] (cops c))) (canon (cobs c))
+  if forallb (op_in_scope (kint c)) (cops c) then
+    list_eqb pairs_eqb (canon (sp_run (kint c) [] (cops c))) (canon (cobs c))
   else true.
 
-Definition model_obs (c : case) : list fired := canon (run (init (cn c) (cint c)) (cops c)).
+Definition model_obs (c : case) : list fired := canon (run (init (kn c) (kint c)) (cops c)).
